@@ -55,6 +55,27 @@ claim("C07",
       "Lean 4 proof (line-partition and fixed-point theorems) + model/implementation correspondence",
       "DESIGN.md §7 C07")
 
+claim("C15",
+      "Theorems over option-plumbing tables that the translator regenerates from the ast of cli.py / reformat_api.py "
+      "on every run: PASS_THROUGH (every formatting option reaches reformat_text / fill_markdown / fill_text as the "
+      "identity dataflow of the CLI value, at both reformat_file call sites, syntactically by `decide` and "
+      "semantically for every valuation by a soundness lemma), AUTO_EXPANSION, OPTIONS_CTOR_COMPLETE; plus the "
+      "option product on the real CLI (in-process and subprocess) against reformat_text/reformat_file bytes and "
+      "the usage-error contract.",
+      COMMON_NOTE + "The formatter is a parameter of the plumbing theorems. Routing (stdin/file × stdout/-o/inplace, "
+      ".orig backups, usage errors) is decided by the end-to-end product, not by a theorem.",
+      "Lean 4 proof over translator-regenerated dataflow tables (decide + soundness lemma) + CLI/API differential product",
+      "DESIGN.md §7 C15")
+claim("C16",
+      "MERGE_PRECEDENCE (hand model of merge_cli_with_config, tied by op `merge`), FIND_NEAREST/FIND_NONE/PICK_ORDER "
+      "(model of find_config_file, tied on random directory chains on disk), and table theorems over the regenerated "
+      "plumbing: EXPLICIT_DETECTION (sentinel parser covers every dual setting), AUTO_LOCK, EVERY_KEY_EFFECTIVE, KEYS; "
+      "plus the effective-behaviour oracle: recorded reformat_files kwargs / FileResolverConfig for every setting × "
+      "{flag absent/given/given-with-default} × {config sets} × {--auto} × file kinds/locations.",
+      COMMON_NOTE + "argparse and tomllib are modelled only through their option tables / key flattening.",
+      "Lean 4 proof (tables regenerated by translator, decide; induction for find-nearest) + correspondence + effect oracle",
+      "DESIGN.md §7 C16")
+
 NOT_YET = {
 }
 
